@@ -455,6 +455,9 @@ func (s *Server) challenge(w http.ResponseWriter) {
 func (s *Server) fault(w http.ResponseWriter, r *http.Request, f Fault, body []byte) bool {
 	switch f.Kind {
 	case "status":
+		if f.Status == 429 || f.Status == 502 || f.Status == 503 || f.Status == 504 {
+			w.Header().Set("Retry-After", "0") // a transient refusal: a client that retries may do so at once
+		}
 		http.Error(w, s.errBody(r, fmt.Sprintf("status %d", f.Status)), f.Status)
 		return true
 	case "reset":
